@@ -86,6 +86,7 @@ Call(ev) ==
       obs == Observed(content, ev)
       nowbad == {ev.bad[i].s : i \in DOMAIN ev.bad}
       panicked == ev.panic # ""
+      inputsOK == Reads(ev) \cap bad = {}     \* operands whose observed set was not a union of atoms cannot be judged
       vPanic == IF panicked THEN {V(ev, "panic", 0, ev.panic)} ELSE {}
       vBad == {V(ev, "not-a-union-of-atoms", ev.bad[i].s, ev.bad[i].m) : i \in DOMAIN ev.bad}
       \* content: every slot not known to be bad must hold what the specification says
@@ -93,9 +94,8 @@ Call(ev) ==
       vContent == IF panicked THEN {} ELSE
                     {V(ev, IF s = Target(ev) THEN "content" ELSE "interference", s,
                        [exp |-> exp[s], obs |-> obs[s]]) : s \in wrong}
-      inputsOK == Reads(ev) \cap bad = {}     \* operands whose observed set was not a union of atoms cannot be judged
       vRet == IF ~panicked /\ HasResult(ev) /\ inputsOK /\ ~ResultOK(U, content, ev, ev.ret)
-              THEN {V(ev, "result", 0, ev.ret)} ELSE {}
+              THEN {V(ev, "result", 0, IF SerialClauses(ev, ev.ret) # {} THEN SerialClauses(ev, ev.ret) ELSE ev.ret)} ELSE {}
       vList == IF ~panicked /\ HasListing(ev) /\ inputsOK /\ ToSet(ev.arr) # ListingOf(U, content, ev)
                THEN {V(ev, "listing", 0, ev.arr)} ELSE {}
       vAux == IF ev.aux THEN {} ELSE {V(ev, "aux", 0, "")}
